@@ -80,3 +80,6 @@ def alistSet {κ ν : Type} [BEq κ] (d : AList κ ν) (k : κ) (v : ν) : AList
   if alistHas d k then d.map (fun p => if p.1 == k then (p.1, v) else p) else d ++ [(k, v)]
 /-- `s.add(x)` on a set kept as a duplicate-free list -/
 def pySetAdd {α : Type} [BEq α] (s : List α) (x : α) : List α := if s.elem x then s else s ++ [x]
+
+/-- `list(itertools.compress(data, selectors))` -/
+def pyCompress {α : Type} (data : List α) (sel : List Bool) : List α := ((data.zip sel).filter (·.2)).map (·.1)
